@@ -57,7 +57,7 @@ fn mutate_lines(t: &mut Tape, text: &str, labels: &mut Vec<&'static str>) -> Str
             break;
         }
         let i = t.below_usize(lines.len());
-        match t.below(9) {
+        match t.below(11) {
             0 => {
                 lines.remove(i);
                 labels.push("mut:delete-line");
@@ -95,6 +95,39 @@ fn mutate_lines(t: &mut Tape, text: &str, labels: &mut Vec<&'static str>) -> Str
                 let j = t.below_usize(lines.len() + 1);
                 lines.insert(j, l);
                 labels.push("mut:move-line");
+            }
+            9 | 10 => {
+                // sub-field mutation: the fields inside a comma field are separated by '|' (slider path, edge
+                // sounds) or ':' (points, sample sets); choose the next line that has one, if any
+                let Some(k) = (i..lines.len()).chain(0..i).find(|k| lines[*k].contains('|')) else { continue };
+                let mut fields: Vec<String> = lines[k].split(',').map(str::to_string).collect();
+                let Some(f) = (0..fields.len()).find(|f| fields[*f].contains('|')) else { continue };
+                let mut parts: Vec<String> = fields[f].split('|').map(str::to_string).collect();
+                let at = t.below_usize(parts.len() + 1);
+                match t.below(6) {
+                    0 => parts.push((*t.pick(&["L", "B", "P", "C", "", "x", "1", "1:", ":1", "1:2:3"])).to_string()),
+                    1 => parts.insert(at, (*t.pick(&["L", "B", "P", "C", "", "100:100", "1e9:1", "-1:-1", "131073:0", "NaN:0", "1:x"])).to_string()),
+                    2 => {
+                        if at < parts.len() {
+                            parts.remove(at);
+                        }
+                    }
+                    3 => {
+                        if at < parts.len() {
+                            let dup = parts[at].clone();
+                            parts.insert(at, dup);
+                        }
+                    }
+                    4 => {
+                        if at < parts.len() {
+                            parts[at] = (*t.pick(TOKENS)).to_string();
+                        }
+                    }
+                    _ => parts.reverse(),
+                }
+                fields[f] = parts.join("|");
+                lines[k] = fields.join(",");
+                labels.push("mut:sub-field");
             }
             7 => {
                 let cut = t.below_usize(lines[i].len() + 1);
@@ -537,7 +570,7 @@ pub fn property() -> Property {
         subchecks: vec![
             SubCheck {
                 name: "mutated-texts",
-                rule: "base = rendered G-MAP (realistic or adversarial) | one of the 4 fixture maps trimmed to 80 objects | raw noise of 0/1/2/3/17/200 bytes; then 1-6 line-level mutations (delete/duplicate/swap/shuffle window/move across sections/truncate/insert section header/replace one comma field by a limit token such as NaN, inf, 1e999, 2147483648, 131073, 9001, empty, garbage), CRLF, then a byte/encoding mutation (bit flips, truncation also mid-UTF-8, insertion, UTF-8 BOM, UTF-16 LE/BE with BOM also odd length, invalid UTF-8). Oracle: from_bytes never panics and fails only with io::Error; on Ok: objects non-decreasing by start time, one sound per object, control points strictly increasing (total_cmp), every number finite and inside its documented clamp (AR/OD/HP/CS, slider multiplier/tick rate, beat_len, slider_velocity, bpm_multiplier, scroll_speed, |x|,|y|<=131072 integral, |t|<=2^31, durations>=0, repeats<=8999, expected_dist in (0,131072], break end>=start); from_bytes == from_str (valid UTF-8) == from_path (1/8 of cases, temp file), errors compared by io::ErrorKind. Non-trivial: >=1 mutation applied and the result decodes to >=2 objects or control points.",
+                rule: "base = rendered G-MAP (realistic or adversarial) | one of the 4 fixture maps trimmed to 80 objects | raw noise of 0/1/2/3/17/200 bytes; then 1-6 line-level mutations (delete/duplicate/swap/shuffle window/move across sections/truncate/insert section header/insert/remove/duplicate/replace a '|'-separated sub-field of a slider path or edge-sound list (type letters, points, garbage)/replace one comma field by a limit token such as NaN, inf, 1e999, 2147483648, 131073, 9001, empty, garbage), CRLF, then a byte/encoding mutation (bit flips, truncation also mid-UTF-8, insertion, UTF-8 BOM, UTF-16 LE/BE with BOM also odd length, invalid UTF-8). Oracle: from_bytes never panics and fails only with io::Error; on Ok: objects non-decreasing by start time, one sound per object, control points strictly increasing (total_cmp), every number finite and inside its documented clamp (AR/OD/HP/CS, slider multiplier/tick rate, beat_len, slider_velocity, bpm_multiplier, scroll_speed, |x|,|y|<=131072 integral, |t|<=2^31, durations>=0, repeats<=8999, expected_dist in (0,131072], break end>=start); from_bytes == from_str (valid UTF-8) == from_path (1/8 of cases, temp file), errors compared by io::ErrorKind. Non-trivial: >=1 mutation applied and the result decodes to >=2 objects or control points.",
                 quick: 40_000,
                 thorough: 800_000,
                 tape_len: 1700,
